@@ -95,29 +95,6 @@ def run(repo: Repo, L: Ledger, tier: str):
     proc = idx.nested.get("process_seq_buffer")
     if proc is None:
         raise AnalysisError("anchor process_seq_buffer vanished")
-    # ---- R6 (structural half of "byte-identical for every buffer size" on the indexing side)
-    from . import c04 as _c04
-
-    store_ = idx.nested.get("store_info")
-    if store_ is None:
-        raise AnalysisError("anchor index_fasta_file.store_info vanished")
-
-    class _Relabel:
-        """the shared rule reports under its C04 id; here it is C13.R6"""
-
-        def __init__(self, led):
-            self._l = led
-
-        def fail(self, rule, *a, **k):
-            return self._l.fail("R6", *a, **k)
-
-        def ok(self, rule, *a, **k):
-            return self._l.ok("R6", *a, **k)
-
-        def __getattr__(self, nm):
-            return getattr(self._l, nm)
-
-    _c04._r4_counter(repo, _Relabel(L), idx, proc, _c04._roles(repo, idx, store_, proc))
 
     # ---- R1
     handles = []
@@ -368,6 +345,29 @@ def run(repo: Repo, L: Ledger, tier: str):
     L.check(set(callers) <= allowed, "R5", sb.short + ":callers", f"fetched only by {callers}", f"sequence_bytes is also called from {sorted(set(callers) - allowed)} (span not bounded by the chunk rule)", sb.loc())
     L.assume("each read of sequence_bytes stays inside one FASTA line")
 
+    # ---- R6 (structural half of "byte-identical for every buffer size" on the indexing side)
+    from . import c04 as _c04
+
+    store_ = idx.nested.get("store_info")
+    if store_ is None:
+        raise AnalysisError("anchor index_fasta_file.store_info vanished")
+
+    class _Relabel:
+        """the shared rule reports under its C04 id; here it is C13.R6"""
+
+        def __init__(self, led):
+            self._l = led
+
+        def fail(self, rule, *a, **k):
+            return self._l.fail("R6", *a, **k)
+
+        def ok(self, rule, *a, **k):
+            return self._l.ok("R6", *a, **k)
+
+        def __getattr__(self, nm):
+            return getattr(self._l, nm)
+
+    _c04._r4_counter(repo, _Relabel(L), idx, proc, _c04._roles(repo, idx, store_, proc))
 
 def _bounded(expr: Lin, B: Lin):
     """expr <= B by one-step upper-bound substitution through min()/max()."""
